@@ -113,7 +113,7 @@ struct StreamEngine : Engine
 		reuse.clear(); for (int side = 0; side < 2; ++side) for (int m = 0; m < 4; ++m) for (int lat : { 1, 40 }) for (int pc = 0; pc < 2; ++pc) reuse.push_back(ReuseCfg{ side, m, lat, pc });
 		for (int side = 0; side < 2; ++side) for (int lat : { 1, 40 }) for (int pc = 0; pc < 2; ++pc) { ReuseCfg r{ side, 1, lat, pc }; r.via_move = 1; reuse.push_back(r); }
 		cfgs.clear(); N = a.thorough() ? 8 : 6; K = a.thorough() ? 3 : 2;
-		for (int r = 0; r < 3; ++r) for (int wp = 0; wp < N_WPLANS_ALL; ++wp) if (wplan_for_stream(wp)) for (int rp = 0; rp < 7; ++rp) for (int cm = 0; cm < 3; ++cm) for (int d = 0; d < 3; ++d) {
+		for (int r = 0; r < 3; ++r) for (int wp = 0; wp < N_WPLANS_ALL; ++wp) if (wplan_for_stream(wp)) for (int rp = 0; rp < 9; ++rp) for (int cm = 0; cm < 3; ++cm) for (int d = 0; d < 3; ++d) {
 			if (!a.thorough() && r == 2 && (rp == 0 || wp == 4)) continue; // slow route with 7-byte reads / longest plan: thorough only
 			cfgs.push_back(Cfg{ r, wp, rp, cm, d });
 		}
